@@ -58,7 +58,7 @@ def build(config, tier):
                  "    check!(sp::eqi%d(sa[1], si[1].abs()) && sp::eqi%d(sa[2], si[2].abs()) && sp::eqi%d(sa[0], if det < 0 { -si[0].abs() } else { si[0].abs() }), \"scale magnitudes; negative determinant reported as negative x scale\");") % (
             T, arr_eq("back", "orig", nn), w, w, w)
         obs.append(Ob("c10_%s_%s_recompose" % (config, ln), PROP, body, fn="%s::to_scale_rotation_translation" % T, kind="lemma", solver="cadical", stubs=["sse", "uf_sqrt%d" % w], cls="lattice", clauses=2,
-                      tier="thorough" if w == 64 else "quick",
+                      tier="thorough",
                       desc="%s: decompose then recompose is exact for T*R*S with R a rational cube rotation (all four matrix->quaternion branches), S in {+-1,+-2}^3 (8 sign patterns), T on the grid; scale is |S| with the sign of det on x" % T))
     # ---- 2D
     T2 = [("Affine2", "Vec2", "Mat2", 32, 6), ("Mat3", "Vec2", "Mat2", 32, 9)]
@@ -106,6 +106,7 @@ def run(s):
         "A4: lattice lemma (polynomial identity from agreement on {-1,0,1}^n); A5: sin_cos/sqrt uninterpreted, sqrt pinned on {0, 1/4, 1, 4, 16}",
         "decomposition of general (non-lattice) transforms to within rounding, and the 2D angle returned by to_scale_angle_translation, are not decided",
         "A3: off the lattice results are the verified expression trees evaluated in floating point",
+        "the decompose -> recompose lattice obligations take 6-10 minutes each and run in the thorough tier only; the quick tier covers composition and the translation clause of decomposition",
     ]
     return s.finish(level_note="composite constructors equal the documented products exactly on the lattice; decomposition/recomposition exact on shear-free lattice transforms",
                     trusted_base=["Kani 0.68 / CBMC 6.11 / CaDiCaL", "model/sse.rs"],
